@@ -127,6 +127,25 @@ func genAction(r *gen.R) string {
 	}
 }
 
+// a name that matches the pattern
+func exactName(r *gen.R, p string) string {
+	lits := []string{"a", "b", "ab", "x", "c", "1"}
+	var out []string
+	for _, t := range splitDots(p) {
+		switch {
+		case t == ">":
+			for j := 1 + r.Intn(2); j > 0; j-- {
+				out = append(out, r.Pick(lits))
+			}
+		case len(t) > 0 && (t[0] == '$' || t[0] == '*'):
+			out = append(out, r.Pick(lits))
+		default:
+			out = append(out, t)
+		}
+	}
+	return strings.Join(out, ".")
+}
+
 func (reqDom) Gen(r *gen.R, tier string, emit func(string)) {
 	n := 5000
 	if tier == "thorough" {
@@ -135,11 +154,14 @@ func (reqDom) Gen(r *gen.R, tier string, emit func(string)) {
 	pats := []string{"a", "a.$x", "a.$x.b", "m.>", "a.*", "$x.$y", "a.b.c"}
 	for i := 0; i < n; i++ {
 		pat := r.Pick(pats)
-		rname := "svc." + nearName(r, pat)
-		if r.Chance(1, 15) {
+		rname := "svc." + exactName(r, pat)
+		if r.Chance(1, 8) {
+			rname = "svc." + nearName(r, pat)
+		}
+		if r.Chance(1, 30) {
 			rname = "svc"
 		}
-		if r.Chance(1, 25) {
+		if r.Chance(1, 40) {
 			rname = "other." + nearName(r, pat)
 		}
 		rtype := r.Pick([]string{"access", "get", "call", "auth", "call", "get"})
@@ -162,7 +184,7 @@ func (reqDom) Gen(r *gen.R, tier string, emit func(string)) {
 		}
 		kinds := ""
 		for _, k := range "agn" {
-			if r.Chance(2, 3) {
+			if r.Chance(4, 5) {
 				kinds += string(k)
 			}
 		}
@@ -172,7 +194,7 @@ func (reqDom) Gen(r *gen.R, tier string, emit func(string)) {
 		pickSet := func(opts []string) string {
 			var o []string
 			for _, x := range opts {
-				if r.Bool() {
+				if r.Chance(2, 3) {
 					o = append(o, x)
 				}
 			}
